@@ -279,3 +279,27 @@ theorem Mixer.spec_resize (hC : C.LenPres) (ibs k : Nat) (m : Mixer ℝ S E P) (
 
 end
 end K
+
+namespace K
+section
+variable {S E P X : Type} (C : Comps ℝ S E P) (V : EnvOps ℝ X)
+
+theorem Renderer.specChunks_resize (hC : C.LenPres) (k ch : Nat) (ns : List Nat) :
+    ∀ (r : Renderer ℝ S E P X), r.Clean → (∀ n ∈ ns, n ≤ r.ibs ∧ n ≤ k) →
+      Renderer.specChunks C V ch (Renderer.resize k r) ns
+        = (Renderer.resize k (Renderer.specChunks C V ch r ns).1, (Renderer.specChunks C V ch r ns).2) := by
+  induction ns with
+  | nil => intro r _ _; simp [Renderer.specChunks]
+  | cons n ns ih =>
+    intro r hr hns
+    obtain ⟨hn1, hn2⟩ := hns n (by simp)
+    have hstep : (Renderer.resize k r).specChunk C V n ch
+        = (Renderer.resize k (r.specChunk C V n ch).1, (r.specChunk C V n ch).2) := by
+      unfold Renderer.specChunk Renderer.resize
+      simp only [Mixer.spec_resize C hC r.ibs k r.mixer hr.2 n hn1 hn2]
+    have hclean := (Renderer.processChunk_spec C V hC r hr n ch hn1).2
+    simp only [Renderer.specChunks, hstep]
+    rw [ih (r.specChunk C V n ch).1 hclean (fun m hm => hns m (by simp [hm]))]
+
+end
+end K
